@@ -148,6 +148,8 @@ def run_check(prop, tier, seed, workers=None, runs_override=None, quiet=False):
     print("VERIF_SEED=%d property=%s tier=%s runs=%d workers=%d repo=%s" % (seed, prop, tier, total_runs, workers, kernel.REPO))
     sys.stdout.flush()
 
+    if hasattr(eng, "prepare_main"):
+        eng.prepare_main(prop, workers)  # e.g. the cold-interpreter table; workers inherit it by fork
     ctx = multiprocessing.get_context("fork")
     pool = cf.ProcessPoolExecutor(max_workers=workers, mp_context=ctx, initializer=_init_worker, initargs=(prop, tier, seed))
     deadline = t0 + WALL_CAP[tier]
@@ -355,6 +357,8 @@ def replay_file(path):
         doc = json.load(f)
     prop = doc["property"]
     eng = load_engine(prop)
+    if hasattr(eng, "prepare_main"):
+        eng.prepare_main(prop, min(8, os.cpu_count() or 1))
     eng.preload(prop)
     res = forked(kernel.child_replay, (eng, prop, doc["program"]))
     if "harness_error" in res:
